@@ -213,6 +213,7 @@ def py_main_writes(load_fails: bool, gen_fails: bool, code: str, out_i: int, suf
     post: _
     """
     written = []
+    opened = []
     suffix = [".py", ".txt"][suffix_i]
 
     def load(p):
@@ -226,18 +227,43 @@ def py_main_writes(load_fails: bool, gen_fails: bool, code: str, out_i: int, suf
         return code
 
     def wt(self, text, *a, **k):
+        opened.append(str(self))
         written.append((str(self), text))
+
+    class _File:
+        def __init__(self, path):
+            self.path = path
+            self.buf = []
+
+        def write(self, text):
+            self.buf.append(text)
+            return len(text)
+
+        def close(self):
+            written.append((self.path, "".join(self.buf)))
+
+        def __enter__(self):
+            return self
+
+        def __exit__(self, *a):
+            self.close()
+            return False
+
+    def op(self, mode="r", *a, **k):
+        opened.append(str(self))
+        return _File(str(self))
 
     raised = False
     with mock.patch.object(gotran2py, "load_ode", load), mock.patch.object(gotran2py, "get_code", gen), \\
-            mock.patch.object(Path, "write_text", wt):
+            mock.patch.object(Path, "write_text", wt), mock.patch.object(Path, "open", op):
         try:
             gotran2py.main(fname=FNAME, outname=OUTNAMES[out_i], suffix=suffix, verbose=False)
         except RuntimeError:
             raised = True
     base = FNAME if OUTNAMES[out_i] is None else Path(OUTNAMES[out_i])
     if load_fails or gen_fails:
-        return raised and written == []
+        # nothing may be written, and the output file may not even be created / truncated
+        return raised and written == [] and opened == []
     return (not raised) and written == [(str(base.with_suffix(suffix)), code)]
 '''
 
@@ -248,6 +274,7 @@ def c_main_writes(load_fails: bool, gen_fails: bool, code: str, out_i: int, suff
     post: _
     """
     written = []
+    opened = []
     suffix = [".h", ".c"][suffix_i]
 
     def load(p):
@@ -261,18 +288,43 @@ def c_main_writes(load_fails: bool, gen_fails: bool, code: str, out_i: int, suff
         return code
 
     def wt(self, text, *a, **k):
+        opened.append(str(self))
         written.append((str(self), text))
+
+    class _File:
+        def __init__(self, path):
+            self.path = path
+            self.buf = []
+
+        def write(self, text):
+            self.buf.append(text)
+            return len(text)
+
+        def close(self):
+            written.append((self.path, "".join(self.buf)))
+
+        def __enter__(self):
+            return self
+
+        def __exit__(self, *a):
+            self.close()
+            return False
+
+    def op(self, mode="r", *a, **k):
+        opened.append(str(self))
+        return _File(str(self))
 
     raised = False
     with mock.patch.object(gotran2c, "load_ode", load), mock.patch.object(gotran2c, "get_code", gen), \\
-            mock.patch.object(Path, "write_text", wt):
+            mock.patch.object(Path, "write_text", wt), mock.patch.object(Path, "open", op):
         try:
             gotran2c.main(fname=FNAME, outname=OUTNAMES[out_i], suffix=suffix, verbose=False)
         except RuntimeError:
             raised = True
     base = FNAME if OUTNAMES[out_i] is None else Path(OUTNAMES[out_i])
     if load_fails or gen_fails:
-        return raised and written == []
+        # nothing may be written, and the output file may not even be created / truncated
+        return raised and written == [] and opened == []
     return (not raised) and written == [(str(base.with_suffix(suffix)), code)]
 '''
 
@@ -310,6 +362,7 @@ def twin_{name}(flag: bool) -> bool:
 MODEL = ("parameters(sigma=12.0, rho=21.0, beta=2.4)\nstates(x=1.0, y=2.0, z=3.05)\n"
          "dx_dt = sigma * (y - x)\na = rho - z\ndy_dt = x * a - y\ndz_dt = x * y - beta * z\n")
 BAD_MODELS = {
+    "cycle-fails-in-generation": "parameters(k=1.0)\nstates(x=1.0)\na = b + 1\nb = a + x\ndx_dt = -k*x + a\n",
     "syntax": "parameters(sigma=12.0\nstates(x=1.0)\ndx_dt = sigma *\n",
     "undefined-symbol": "states(x=1.0)\ndx_dt = -k*x\n",
     "missing-derivative": "states(x=1.0, y=2.0)\ndx_dt = -x\n",
@@ -387,11 +440,14 @@ def work(task):
             for cmd, suffix in (("ode2py", "py"), ("ode2c", "h")):
                 if bad != "missing-file":
                     open(os.path.join(d, "model.ode"), "w").write(task["text"])
-                p = run_cli([cmd, "model.ode", "-o", "result", "--format", "none"], d)
                 outp = os.path.join(d, f"result.{suffix}")
+                # an output of an earlier successful run must survive a failing run untouched
+                open(outp, "w").write("previous good output\n")
+                p = run_cli([cmd, "model.ode", "-o", "result", "--format", "none"], d)
                 prog.fact(f"cli|{cmd}|{bad}|nonzero-exit", p.returncode != 0, "ZeroExitOnInvalid", f"{cmd} on an invalid model ({bad}) exits 0")
-                prog.fact(f"cli|{cmd}|{bad}|no-output", not os.path.exists(outp), "OutputWrittenOnInvalid",
-                          f"{cmd} on an invalid model ({bad}) wrote {outp}")
+                kept = os.path.exists(outp) and open(outp).read() == "previous good output\n"
+                prog.fact(f"cli|{cmd}|{bad}|no-output", kept, "OutputWrittenOnInvalid",
+                          f"{cmd} on an invalid model ({bad}) wrote / truncated {outp}")
             prog.nontrivial = True
     return prog.result()
 
